@@ -532,7 +532,7 @@ func (ecd Encoder) decodePublic(pt *rlwe.Plaintext, values FloatSlice, logprec f
 				}
 
 			case []complex128:
-				copy(values, buffCmplx)
+				copy(values, buffCmplx[:slots])
 			case []*big.Float:
 
 				slots := utils.Min(len(values), slots)
